@@ -611,7 +611,11 @@ func coordinate(spec *Spec, prop, tier string, n int, seed int64, params map[str
 	known := loadKnown()
 	var unknown []*Violation
 	nKnown := 0
-	os.MkdirAll(filepath.Join(VerifDir(), "replays"), 0o755)
+	replayDir := filepath.Join(VerifDir(), "replays")
+	if !writeEvidence { // a run against a scratch copy of the repository
+		replayDir = filepath.Join(VerifDir(), ".build", "replays")
+	}
+	os.MkdirAll(replayDir, 0o755)
 	sort.Strings(order)
 	for _, sig := range order {
 		v := merged[sig]
@@ -631,7 +635,7 @@ func coordinate(spec *Spec, prop, tier string, n int, seed int64, params map[str
 	}
 	for _, v := range unknown {
 		h := sha1.Sum([]byte(v.Signature))
-		path := filepath.Join(VerifDir(), "replays", fmt.Sprintf("%s-%x.json", prop, h[:5]))
+		path := filepath.Join(replayDir, fmt.Sprintf("%s-%x.json", prop, h[:5]))
 		rf := map[string]any{"property": prop, "harness": spec.Name, "signature": v.Signature, "detail": v.Detail, "case": v.Case, "count": v.Count, "tier": tier, "params": params}
 		b, _ := json.MarshalIndent(rf, "", " ")
 		os.WriteFile(path, b, 0o644)
